@@ -1652,3 +1652,8 @@ def _native_fault_injection(ctx):
                        'instructions per phase <= %d; single faults and fault x failing cleanup' % bound,
                        cases, True, out,
                        note='act/validate-exe-input is not injectable through the public interfaces used here')
+
+
+# Assumed summaries of this module that follow from contracts PROVED for another property (Module.implied_by, ENGINE.md):
+# the refinement obligations are generated by this property's check and the proved contract is re-proved here.
+M.implied_by('exactly_lib.execution.partial_execution.impl.executor:_PartialExecutor._env_vars__read_only', 'C04')
